@@ -297,9 +297,31 @@ def check_garbage(case, ctx):
         shutil.rmtree(tmp, ignore_errors=True)
 
 
+def stdin_cells(tier):
+    import datetime as _d
+
+    g = _d.datetime(2020, 5, 5, 5, 5, 5, tzinfo=_d.timezone.utc)
+    out = []
+    for container in ("stream", "avro"):
+        for codec in CODECS:
+            if container == "stream":
+                seq = [gen.M("plain", {"desc": ("t/s", (("string", "a"), ("varint[]", "b"))), "vals": ["x\udc80", [1, 2**70]],
+                                       "src": None, "cls": None, "gen": g}),
+                       gen.M("plain", {"desc": ("t/u", (("path", "p"),)), "vals": [gen.M("path", ("windows", "c:\\x", "from"))],
+                                       "src": "s", "cls": None, "gen": g})]
+            else:
+                seq = [gen.M("plain", {"desc": ("t/avro", AVRO_FIELDS), "vals": ["a", 5, True, b"\x00"], "src": None,
+                                       "cls": None, "gen": g}),
+                       gen.M("plain", {"desc": ("t/avro", AVRO_FIELDS), "vals": [None, None, None, None], "src": None,
+                                       "cls": None, "gen": g})]
+            out.append({"container": container, "codec": codec, "seq": seq})
+    return out
+
+
 def parts(tier):
     return [
         Part("matrix", check_matrix, strategy=matrix_case(), examples=(40, 800)),
-        Part("stdin", check_stdin, strategy=matrix_case(), examples=(2, 25)),
+        Part("stdin-cells", check_stdin, cases=stdin_cells, exhaustive=True),
+        Part("stdin", check_stdin, strategy=matrix_case(), examples=(1, 25)),
         Part("garbage", check_garbage, strategy=garbage_case(), examples=(100, 2000)),
     ]
